@@ -63,6 +63,7 @@ POLY = ["box", "hull", "mesh"]
 
 C07_KNOWN = set()      # filled in run(): recorded findings of C07 whose input classes are skipped here
 C09_KNOWN = set()
+C18_ILLCOND = [False]
 ORIG_FORCED_ZERO_ID = "F-O1"   # gjk_distance_original: exit forces d = 0 for a 4-point simplex although the backup solution is far
 
 
@@ -459,6 +460,14 @@ def judge_narrow(R, scene, res, T, member_queue):
                                 fail(f"{base}: {vname}: contact flag {av['contact']} vs {a0['contact']} in a clear {clear} scene",
                                      variant=vname, fn=base)
                         continue
+                if base in ("gjk_jolt", "gjk_original") and C18_ILLCOND[0] and any(
+                        x.get("a") is not None and x.get("d", 0.0) < MAX_FLOAT_ISH and
+                        abs(float(np.linalg.norm(np.array(x["a"]) - np.array(x["b"]))) - x["d"]) > k * LL
+                        for x, LL in ((a0, L[0]), (av, Lv))):
+                    # one form's answer contradicts itself beyond the property's tolerance (d from a bogus, too short result of
+                    # the simplex solver on a thin simplex, closest points right): recorded class C18-*-ILLCOND, judged by C01/C09/C18
+                    T.hit("skip_gjk_self_inconsistent_C18_illcond")
+                    continue
                 if base == "gjk_original" and ORIG_FORCED_ZERO_ID in C09_KNOWN and any(
                         x.get("d") == 0.0 and x.get("last_simplex") == 4 and x.get("last_d2", 0.0) > (1e-3 * LL) ** 2
                         for x, LL in ((a0, L[0]), (av, Lv))):
@@ -757,6 +766,7 @@ def run(tier, seed, replay=None):
     C07_KNOWN.update(foreign_known("C07"))
     C09_KNOWN.clear()
     C09_KNOWN.update(foreign_known("C09"))
+    C18_ILLCOND[0] = bool({"C18-JOLT-ILLCOND", "C18-ORIG-ILLCOND"} & foreign_known("C18"))
     R.cov["rule"] = (
         "scene = ordered pair of colliders (10 kinds, optional Margin; streams of harness/narrow.gen_pair: random, lattice incl. "
         "identical objects, wide, constructed gap / penetration; plus overlapping polytopes and Nesterov primitives) or a call of one "
